@@ -102,7 +102,85 @@ InvAllowExact          == ForAllRequests(AllowExact)
 InvSuffixIsolation     == ForAllRequests(SuffixIsolation)
 InvKwargsAreFields     == ForAllRequests(KwargsAreFields)
 InvMetaRefused         == ForAllRequests(MetaRefused)
+(* all clauses in one pass over the request universe (instances whose matching is expensive) *)
+AllClauses(m, c, o) == /\ RouteMasksFallbacks(m, c, o) /\ Lifo(m, c, o) /\ AllowExact(m, c, o)
+                       /\ SuffixIsolation(m, c, o) /\ KwargsAreFields(m, c, o) /\ MetaRefused(m, c, o)
+InvAllClauses          == ForAllRequests(AllClauses)
 InvConflictFree        == ConflictFree(routes) /\ \A i \in 1..Len(sinks) : WellFormedSink(sinks[i].pat)
+
+-----------------------------------------------------------------------------
+(* the instance for text with regular-expression metacharacters and for multi-field sibling segments:
+   static prefixes /v1.0 /a+b (plain text: /v1x0/f and /aab/f are NOT theirs), a sink whose literal text is /v1.0,
+   literal v1.0 next to v{major}.{minor}, {a}-{b} next to {stem}.{ext} (none of the siblings a simple field), with
+   branches that match a segment and then hold no resource for the rest of the path *)
+Cx(t) == [k |-> "cx", s |-> t]
+CxTemplates == {
+  <<Lit(<<114, 101, 112, 111, 115>>), Lit(<<118, 49, 46, 48>>), Lit(<<110, 111, 116, 101, 115>>)>>,                         \*  /repos/v1.0/notes
+  <<Lit(<<114, 101, 112, 111, 115>>), Cx(<<118, 123, 109, 97, 106, 111, 114, 125, 46, 123, 109, 105, 110, 111, 114, 125>>)>>, \*  /repos/v{major}.{minor}
+  <<Lit(<<102, 105, 108, 101, 115>>), Cx(<<123, 97, 125, 45, 123, 98, 125>>), Lit(<<114, 97, 119>>)>>,                       \*  /files/{a}-{b}/raw
+  <<Lit(<<102, 105, 108, 101, 115>>), Cx(<<123, 115, 116, 101, 109, 125, 46, 123, 101, 120, 116, 125>>)>>,                   \*  /files/{stem}.{ext}
+  <<Lit(<<102, 105, 108, 101, 115>>), Cx(<<123, 97, 125, 45, 123, 98, 125>>)>> }                                             \*  /files/{a}-{b}
+CxResKinds == { [plain |-> {"GET"}, sfx |-> {"POST"}] }
+CxSinkPats == { <<Tok("lit", <<47>>)>>,                                  \*  /
+                <<Tok("lit", <<47, 118, 49, 46, 48>>)>>,                 \*  /v1\.0      (literal text: the harness escapes it)
+                <<Tok("lit", <<47, 114, 101, 112, 111, 115>>)>> }        \*  /repos
+CxStaticPrefixes == { <<47, 118, 49, 46, 48>>,                           \*  /v1.0
+                      <<47, 97, 43, 98>> }                               \*  /a+b
+(* the small instance in which the dead-end witness must exist: the two /repos templates, the catch-all sink *)
+CxRepoTemplates == {t \in CxTemplates : t[1] = Lit(<<114, 101, 112, 111, 115>>)}
+CxRootSink == { <<Tok("lit", <<47>>)>> }
+CxMethods == {"GET", "POST", "OPTIONS"}
+CxPaths == {
+  <<47, 114, 101, 112, 111, 115, 47, 118, 49, 46, 48>>,                                      \*  /repos/v1.0
+  <<47, 114, 101, 112, 111, 115, 47, 118, 49, 46, 48, 47, 110, 111, 116, 101, 115>>,         \*  /repos/v1.0/notes
+  <<47, 114, 101, 112, 111, 115, 47, 118, 49, 120, 48>>,                                     \*  /repos/v1x0
+  <<47, 114, 101, 112, 111, 115, 47, 118, 50, 46, 49, 48, 46, 51>>,                          \*  /repos/v2.10.3
+  <<47, 114, 101, 112, 111, 115, 47, 118, 49, 46>>,                                          \*  /repos/v1.
+  <<47, 102, 105, 108, 101, 115, 47, 109, 121, 45, 110, 111, 116, 101, 115, 46, 116, 120, 116>>,                  \*  /files/my-notes.txt
+  <<47, 102, 105, 108, 101, 115, 47, 109, 121, 45, 110, 111, 116, 101, 115, 46, 116, 120, 116, 47, 114, 97, 119>>, \*  /files/my-notes.txt/raw
+  <<47, 102, 105, 108, 101, 115, 47, 109, 121, 45, 110, 111, 116, 101, 115>>,                \*  /files/my-notes
+  <<47, 102, 105, 108, 101, 115, 47, 110, 111, 116, 101, 115, 46, 116, 120, 116>>,           \*  /files/notes.txt
+  <<47, 102, 105, 108, 101, 115, 47, 45, 46>>,                                               \*  /files/-.
+  <<47, 118, 49, 46, 48, 47, 102>>,                                                          \*  /v1.0/f
+  <<47, 118, 49, 120, 48, 47, 102>>,                                                         \*  /v1x0/f
+  <<47, 118, 49, 46, 48>>,                                                                   \*  /v1.0
+  <<47, 118, 49, 120, 48>>,                                                                  \*  /v1x0
+  <<47, 97, 43, 98, 47, 102>>,                                                               \*  /a+b/f
+  <<47, 97, 97, 98, 47, 102>>,                                                               \*  /aab/f
+  <<47, 114, 101, 112, 111, 115>> }                                                          \*  /repos
+
+InvWellFormedTemplates == \A e \in routes : WellFormedTmpl(e.tmpl)
+
+(* wrong readings, as invariants that MUST FAIL in this instance (they show that the instance contains the cases):
+   1. a static prefix read as a pattern ("." = any character, "x+" = one or more x) would claim other paths *)
+RECURSIVE RxFrom(_, _, _, _)
+RxFrom(pre, i, p, j) ==                 \* pattern pre from 1-based i matches p from 1-based j (as a prefix)
+    IF i > Len(pre) THEN TRUE
+    ELSE IF i < Len(pre) /\ pre[i + 1] = 43                                   \*  c+
+         THEN \E k \in 1..(Len(p) - j + 1) : /\ \A x \in j..(j + k - 1) : p[x] = pre[i]
+                                             /\ RxFrom(pre, i + 2, p, j + k)
+         ELSE j <= Len(p) /\ (pre[i] = 46 \/ pre[i] = p[j]) /\ RxFrom(pre, i + 1, p, j + 1)
+StaticAsPattern(s, p) == RxFrom(s.prefix \o <<SLASH>>, 1, p, 1) \/ (s.fb /\ RxFrom(s.prefix, 1, p, 1) /\ Len(p) = Len(s.prefix))
+InvStaticPrefixCouldBePattern ==
+    \A i \in 1..Len(statics), p \in Paths : StaticAsPattern(statics[i], p) = StaticMatch(statics[i], p)
+(* 2. a walk that gives up after the first sibling whose segment matches would answer differently: there is a path whose
+      route runs through a multi-field segment although an EARLIER sibling (the literal, or an older multi-field one)
+      matches the same path segment and holds no resource for the rest of the path *)
+DeadEndBefore(p) ==
+    LET segs == Segments(p)
+        r    == DMatch(routes, p)
+    IN  /\ r.found
+        /\ \E k \in 1..Len(r.tmpl) :
+             /\ r.tmpl[k].k = "cx"
+             /\ \E e \in routes :
+                  /\ Len(e.tmpl) >= k /\ SubSeq(e.tmpl, 1, k - 1) = SubSeq(r.tmpl, 1, k - 1) /\ e.tmpl[k] # r.tmpl[k]
+                  /\ e.tmpl[k].k \in {"lit", "cx"} /\ SegHit(e.tmpl[k], segs[k]).ok
+                  /\ (e.tmpl[k].k = "cx" => NodeOrd(routes, SubSeq(e.tmpl, 1, k)) < NodeOrd(routes, SubSeq(r.tmpl, 1, k)))
+                  /\ \A e2 \in routes : IsPrefix(SubSeq(e.tmpl, 1, k), e2.tmpl) => ~SegsMatch(e2.tmpl, segs)
+InvNoDeadEndBeforeMultiField == \A p \in Paths : ~DeadEndBefore(p)
+(* 2b. ... and one where such a route must mask a sink or static route that matches too / where the method is not implemented *)
+InvNoDeadEndMasking405 == \A p \in Paths : ~(/\ DeadEndBefore(p) /\ Scan(Fallbacks, p).kind # "NotFound"
+                                               /\ Outcome("POST", p).kind = "NotAllowed")
 
 Keep == UNCHANGED h
 Log  == h' = Append(h, last')
